@@ -4,7 +4,7 @@
 // One-step (1-induction) harnesses from an arbitrary socket state satisfying INV_tcp
 // (DESIGN.md section 9) with ghost streams, plus constructor/base-case harnesses.
 #[allow(dead_code, unused_imports, unused_variables, unused_mut, unused_assignments)]
-mod v_socket_tcp {
+pub(crate) mod v_socket_tcp {
     use super::*;
     use crate::iface::{Config, Interface};
     use crate::phy::{ChecksumCapabilities, Medium};
@@ -177,9 +177,11 @@ mod v_socket_tcp {
         s.rtte.rto_count = kani::any();
         kani::assume(s.rtte.rto_count < 3);
         s.rtte.have_measurement = kani::any();
-        s.rtte.srtt = any_le(60_000) as u32;
-        s.rtte.rttvar = any_le(60_000) as u32;
-        s.rtte.timestamp = if kani::any() { Some((any_instant_in(0, now), TcpSeqNumber(kani::any()))) } else { None };
+        // T0 (stated assumption): an RTT sample spans at most 10 minutes, i.e. while a segment is being timed the
+        // interface is polled at least that often (the RTO, <= 60 s, aborts the sample at the next dispatch)
+        s.rtte.srtt = any_le(600_000) as u32;
+        s.rtte.rttvar = any_le(600_000) as u32;
+        s.rtte.timestamp = if kani::any() { Some((any_instant_in(core::cmp::max(0, now - 600_000), now), TcpSeqNumber(kani::any()))) } else { None };
         s.rtte.max_seq_sent = if kani::any() { Some(TcpSeqNumber(kani::any())) } else { None };
         s.ack_delay = if kani::any() { Some(Duration::from_millis(any_le(1000) as u64)) } else { None };
         let ad: u8 = kani::any();
@@ -208,6 +210,8 @@ mod v_socket_tcp {
         let rxlen = any_le(RX);
         let rxread = any_lt(RX);
         kani::assume(rxlen <= r);
+        // G1: everything the socket could still accept lies inside the ghost universe
+        kani::assume(r + (RX - rxlen) <= U);
         s.rx_buffer.verif_set(rxread, rxlen);
         let fin_rcvd = is_post_fin(state); // F1
         s.rx_fin_received = fin_rcvd;
@@ -476,7 +480,8 @@ mod v_socket_tcp {
                     assert!(ctl == TcpControl::Fin, "prop:c17_close_wait_only_by_in_order_fin");
                 }
                 (State::FinWait1, State::FinWait2) => {
-                    assert!(ctl == TcpControl::None && ack_is(our_fin_seq), "prop:c17_fin_wait_2_only_by_ack_of_own_fin");
+                    // (a FIN that cannot be taken yet because of a hole counts as a plain ACK)
+                    assert!(ctl != TcpControl::Rst && ctl != TcpControl::Syn && ack_is(our_fin_seq), "prop:c17_fin_wait_2_only_by_ack_of_own_fin");
                 }
                 (State::FinWait1, State::Closing) => {
                     assert!(ctl == TcpControl::Fin && !ack_is(our_fin_seq), "prop:c17_closing_only_by_in_order_fin");
@@ -485,7 +490,7 @@ mod v_socket_tcp {
                     assert!(ctl == TcpControl::Fin && ack_is(our_fin_seq), "prop:c17_time_wait_only_when_both_fins_done");
                 }
                 (State::Closing, State::TimeWait) => {
-                    assert!(ctl == TcpControl::None && ack_is(our_fin_seq), "prop:c17_time_wait_only_when_both_fins_done");
+                    assert!(ctl != TcpControl::Rst && ctl != TcpControl::Syn && ack_is(our_fin_seq), "prop:c17_time_wait_only_when_both_fins_done");
                 }
                 _ => {
                     assert!(false, "prop:c17_segment_cannot_cause_this_edge");
